@@ -62,6 +62,10 @@ func (t *Transformer) transformElements(elements []WirePattern, pkg *types.Packa
 
 	var result []KessokuPattern
 
+	// One implementation may be bound to several interfaces: the bindings are nested around a
+	// single provider, kessoku.Bind[A](kessoku.Bind[B](kessoku.Provide(NewImpl))).
+	bindsByImpl := make(map[string]*KessokuBind)
+
 	for _, elem := range elements {
 		switch we := elem.(type) {
 		case *WireNewSet:
@@ -77,6 +81,16 @@ func (t *Transformer) transformElements(elements []WirePattern, pkg *types.Packa
 			if err != nil {
 				return nil, err
 			}
+			implKey := we.Implementation.String()
+			if first, ok := bindsByImpl[implKey]; ok {
+				first.Provider = &KessokuBind{
+					Interface: transformed.Interface,
+					Provider:  first.Provider,
+					SourcePos: transformed.SourcePos,
+				}
+				continue
+			}
+			bindsByImpl[implKey] = transformed
 			result = append(result, transformed)
 		case *WireValue:
 			result = append(result, t.transformValue(we))
